@@ -189,6 +189,10 @@ class Ctx:
         os.makedirs(os.path.join(OUT, 'evidence'), exist_ok=True)
         with open(os.path.join(OUT, 'evidence', f'{self.pid}.json'), 'w') as f:
             json.dump(ev, f, indent=1, default=str)
+        # the latest run of either tier is evidence/<id>.json; a copy per tier is kept next to it
+        os.makedirs(os.path.join(OUT, 'evidence', 'by_tier'), exist_ok=True)
+        with open(os.path.join(OUT, 'evidence', 'by_tier', f'{self.pid}.{self.tier}.json'), 'w') as f:
+            json.dump(ev, f, indent=1, default=str)
         shutil.rmtree(self.work, ignore_errors=True)
         self.log(f'done: {len(self.violations)} violation(s), {self.states} states, {self.traces} traces, '
                  f'{self.evaluations} evaluations, {wall:.1f}s')
